@@ -5,10 +5,9 @@ spec/Gen_WireResp.tla  TLC generates the cases (BFS one state per case, -simulat
 harness/c04            feeds the frame bytes to the real receive path, records the driver's view
 spec/Trace_WireResp.tla  TLC compares every recorded view with the logical record (MONVIOL)
 """
-import collections, concurrent.futures as cf, json, os, random, re
+import collections, concurrent.futures as cf, hashlib, json, os, random, re
 import vf
 
-SESS = ("sess-full", "sess-skip", "sess-full-z", "sess-skip-z")
 
 
 def _printed(out, tag):
@@ -28,28 +27,6 @@ def _s(b):
         return bytes(b).decode("utf-8")
     except Exception:
         return repr(bytes(b))
-
-
-def _modes(c, quick):
-    """Which ways a case is pushed through the driver."""
-    l = c["logical"]
-    modes = ["plain", "snappy"]
-    if l["kind"] == "RESULT_ROWS" and c["prep"]:
-        nometa = l["b"]["meta"]["nometa"]
-        z = (c["id"] % 3 == 0) if quick else True
-        if nometa:
-            modes.append("sess-skip")
-            if z:
-                modes.append("sess-skip-z")
-        else:
-            modes.append("sess-full")
-            if z:
-                modes.append("sess-full-z")
-            if l["v"] == 1:
-                # v1 has no skip-metadata flag on the wire: the server always sends the
-                # metadata, whatever the driver's (default) skip setting is
-                modes.append("sess-skip")
-    return modes
 
 
 SCANNERS = {"c_rawscanner", "c_ptrscanner"}
@@ -82,10 +59,12 @@ def _key(c, mode, v):
     """Violation key: <path>/<kind>[/<error code>]/v<version>/<first contradicted field>."""
     l = c["logical"]
     path = "framer" if mode in ("plain", "snappy") else "session"
-    if mode in ("snappy", "sess-full-z", "sess-skip-z"):
+    if mode.endswith("-z") or mode == "snappy":
         path += "-compressed"
     if mode.startswith("sess-skip"):
         path += "-skipmeta"
+    if mode.startswith("sess-prep"):
+        path += "-queryinfo"
     kind = l["kind"].lower()
     if l["kind"] == "ERROR":
         kind += "-0x%04x" % l["b"]["code"]
@@ -116,51 +95,126 @@ def _describe(c, mode, v):
     return what
 
 
+def _summary(c):
+    """The few facts about a case the driver of the check needs (the full record stays a JSON string)."""
+    l = c["logical"]
+    rows = l["kind"] == "RESULT_ROWS"
+    return dict(fam=c["fam"], kind=l["kind"], v=l["v"], rows=rows, nometa=bool(rows and l["b"]["meta"]["nometa"]),
+                prep=bool(c["prep"]), typed=c["typed"], nbytes=len(c["bytes"]),
+                code=l["b"]["code"] if l["kind"] == "ERROR" else None)
+
+
+def _modes(s, cid, quick):
+    """Which ways a case is pushed through the driver."""
+    modes = ["plain", "snappy"]
+    if s["rows"] and s["prep"]:
+        z = (cid % 3 == 0) if quick else True
+        if s["nometa"]:
+            modes.append("sess-skip")
+            if z:
+                modes.append("sess-skip-z")
+        else:
+            modes.append("sess-full")
+            if z:
+                modes.append("sess-full-z")
+            if s["v"] == 1:
+                # v1 has no skip-metadata flag on the wire: the server always sends the
+                # metadata, whatever the driver's (default) skip setting is
+                modes.append("sess-skip")
+    z = (cid % 3 == 0) if quick else True
+    if s["kind"] == "ERROR" and s["code"] != 0x2500:
+        # as the application gets it: the error value returned by Iter.Close() for a plain QUERY
+        # (UNPREPARED makes the driver re-prepare and re-execute: not a terminal answer)
+        modes.append("sess-full")
+        if z:
+            modes.append("sess-full-z")
+    if s["kind"] == "RESULT_PREPARED":
+        # as the application gets it: the QueryInfo handed to a binding function
+        modes.append("sess-prep")
+        if z:
+            modes.append("sess-prep-z")
+    return modes
+
+
+def _case_lines(out, tag="CASE"):
+    pre = '"' + tag + " "
+    for line in out.splitlines():
+        if line.startswith(pre) and line.endswith('"'):
+            yield line[len(pre):-1].replace('\\"', '"').replace("\\\\", "\\")
+
+
 def run(ctx):
     quick = ctx.tier == "quick"
     ctx.level = "exploration"
+    if getattr(ctx, "replay", None):
+        return _run(ctx, quick, _replay_cases(ctx.replay))
+    return _run(ctx, quick, None)
+
+
+def _replay_cases(path):
+    """Cases of a replay file written by an earlier run: each violation carries its case."""
+    rp = json.load(open(path))
+    res = []
+    for v in rp.get("violations", []):
+        d = v.get("detail") or {}
+        if "case" in d:
+            res.append((json.dumps(d["case"], separators=(",", ":")), [d["mode"]]))
+    if not res:
+        raise vf.Inconclusive("replay file %s holds no C04 case" % path)
+    return res
+
+
+def _run(ctx, quick, replay):
+    if replay is not None:
+        raw = [r[0] for r in replay]
+        forced = [r[1] for r in replay]
+        nbfs, ndeep_all, deep = len(raw), 0, []
+        gdistinct = 0
+        ctx.log("replaying %d case(s)" % len(raw))
+        return _drive(ctx, quick, raw, forced, nbfs, deep, ndeep_all, gdistinct)
     # ---- 1. TLC generates the cases
     cfg = "Gen_WireResp_quick.cfg" if quick else "Gen_WireResp_thorough.cfg"
     g = vf.run_tlc(ctx, "Gen_WireResp", cfg, workers=4, heap="4g", timeout=600, deadlock=False, name="gen")
     if not g.ok:
         raise vf.Inconclusive("case generator failed: %s\n%s" % (g.error or g.violated, g.out[-2000:]))
-    cases = _printed(g.out, "CASE")
-    nbfs = len(cases)
+    raw = list(_case_lines(g.out))          # one JSON string per case
+    nbfs = len(raw)
     if nbfs != g.distinct:
         raise vf.Inconclusive("generator printed %d cases for %d states" % (nbfs, g.distinct))
+    g.out = ""
     sim = vf.run_tlc(ctx, "Gen_WireResp", "Gen_WireResp_sim.cfg", workers=1, heap="2g", timeout=300,
                      simulate="num=%d" % (12 if quick else 150), depth=6 if quick else 9, deadlock=False, name="gensim",
                      extra=["-seed", str(ctx.seed)])
     if not sim.ok:
         raise vf.Inconclusive("simulation generator failed: %s\n%s" % (sim.error or sim.violated, sim.out[-2000:]))
-    deep, seen = [], set()
-    for c in _printed(sim.out, "CASE"):
-        k = json.dumps(c["bytes"])
-        if k not in seen:
-            seen.add(k)
-            deep.append(c)
     # TLC evaluates the printing invariant on every candidate successor of a walk, so a walk
-    # yields far more trees than its length: keep a seeded sample
+    # yields far more trees than its length: keep a seeded sample of the distinct ones
+    deep = sorted(set(_case_lines(sim.out)))
+    sim.out = ""
     ndeep_all = len(deep)
     random.Random(ctx.seed).shuffle(deep)
     deep = deep[:300 if quick else 6000]
-    cases += deep
-    ctx.log("cases: %d systematic (BFS) + %d from random walks" % (nbfs, len(deep)))
-    if not cases:
+    raw += deep
+    ctx.log("cases: %d systematic (BFS) + %d of %d distinct trees from random walks" % (nbfs, len(deep), ndeep_all))
+    if not raw:
         raise vf.Inconclusive("no cases generated")
-    for i, c in enumerate(cases):
-        c["id"] = i
-        c["views"] = {}
-        c["modes"] = _modes(c, quick)
+    return _drive(ctx, quick, raw, None, nbfs, deep, ndeep_all, g.distinct)
 
+
+def _drive(ctx, quick, raw, forced, nbfs, deep, ndeep_all, gdistinct):
     # ---- 2. the real code decodes them
     cp = os.path.join(ctx.tmp, "c04_cases.ndjson")
+    summ_of, logical_of, expected_views = [], [], 0
     with open(cp, "w") as f:
-        for c in cases:
-            l = c["logical"]
-            f.write(json.dumps(dict(id=c["id"], v=l["v"], bytes=c["bytes"], prep=c["prep"], typed=c["typed"], plan=c["plan"],
-                                    cons=(l["kind"] == "RESULT_ROWS" and not l["b"]["meta"]["nometa"]),
-                                    modes=c["modes"]), separators=(",", ":")) + "\n")
+        for cid, line in enumerate(raw):
+            c = json.loads(line)
+            s = _summary(c)
+            s["modes"] = forced[cid] if forced else _modes(s, cid, quick)
+            expected_views += len(s["modes"])
+            summ_of.append(s)
+            logical_of.append(json.dumps(c["logical"], separators=(",", ":")))
+            f.write(json.dumps(dict(id=cid, v=s["v"], bytes=c["bytes"], prep=c["prep"], typed=c["typed"], plan=c["plan"],
+                                    cons=(s["rows"] and not s["nometa"]), modes=s["modes"]), separators=(",", ":")) + "\n")
     binary = vf.build_gotest(ctx, ".", ["c04"])
     vp = os.path.join(ctx.tmp, "c04_views.ndjson")
     rc, out = vf.run_gotest(ctx, binary, "^TestVfC04Run$", env={"VF_C04_CASES": cp, "VF_C04_VIEWS": vp},
@@ -174,66 +228,98 @@ def run(ctx):
     ctx.log("harness: %s" % summ)
     if summ["sess_errors"]:
         raise vf.Inconclusive("could not open a session to the scripted node: %s" % summ["sess_errors"])
-    views = vf.read_ndjson(vp)
-    expected_views = sum(len(c["modes"]) for c in cases)
-    if len(views) != expected_views:
-        raise vf.Inconclusive("harness produced %d views, expected %d" % (len(views), expected_views))
+    if summ["views"] != expected_views:
+        raise vf.Inconclusive("harness produced %d views, expected %d" % (summ["views"], expected_views))
 
-    # ---- 3. TLC decides view = logical on every vector
-    vectors = []
-    for v in views:
-        c = cases[v["id"]]
-        c["views"][v["mode"]] = v
-        vectors.append(dict(id=v["id"], mode=v["mode"], typed=c["typed"], logical=c["logical"], view=v))
-    nshard = min(8, vf.NCPU, max(1, len(vectors) // 400))
-    shards = [vectors[i::nshard] for i in range(nshard)]
+    # ---- 3. TLC decides view = logical on every vector (the logical record is attached here,
+    #         from TLC's own output, never by the harness)
+    nshard = min(8, vf.NCPU, max(1, expected_views // 400))
+    paths = [os.path.join(ctx.tmp, "c04_vec_%d.ndjson" % i) for i in range(nshard)]
+    files = [open(p, "w") for p in paths]
+    counts = [0] * nshard
+    head = re.compile(r'"id":(\d+)')
+    modes_seen = collections.Counter()
+    distinct = set()
+    with open(vp) as f:
+        for n, line in enumerate(f):
+            line = line.strip()
+            if not line:
+                continue
+            view = json.loads(line)
+            cid, mode = view["id"], view["mode"]
+            modes_seen[mode] += 1
+            if summ_of[cid]["nbytes"] > 9:
+                distinct.add((mode, hashlib.md5(raw[cid][raw[cid].index('"bytes"'):].encode()).digest()))
+            i = n % nshard
+            files[i].write('{"id":%d,"mode":"%s","typed":%s,"logical":%s,"view":%s}\n' % (
+                cid, mode, "true" if summ_of[cid]["typed"] else "false", logical_of[cid], line))
+            counts[i] += 1
+    for fo in files:
+        fo.close()
 
     def validate(i):
-        p = os.path.join(ctx.tmp, "c04_vec_%d.ndjson" % i)
-        vf.write_ndjson(p, shards[i])
         return vf.run_tlc(ctx, "Trace_WireResp", "Trace_WireResp.cfg", workers=1, heap="3g", timeout=1500,
-                          env={"VF_TRACE": p}, deadlock=False, name="val_%d" % i, quiet=True)
+                          env={"VF_TRACE": paths[i]}, deadlock=False, name="val_%d" % i, quiet=True)
 
     monviol, checked = [], 0
     with cf.ThreadPoolExecutor(nshard) as ex:
         for i, r in enumerate(ex.map(validate, range(nshard))):
             done = re.search(r'^"MONDONE (\d+)"$', r.out, re.M)
-            if not r.ok or not done or int(done.group(1)) != len(shards[i]):
+            if not r.ok or not done or int(done.group(1)) != counts[i]:
                 raise vf.Inconclusive("vector validation failed on shard %d: %s\n%s" % (i, r.error or r.violated, r.out[-2500:]))
             checked += int(done.group(1))
-            monviol += _printed(r.out, "MONVIOL")
+            for v in _printed(r.out, "MONVIOL"):
+                v["shard"] = i
+                monviol.append(v)
     ctx.log("TLC compared %d views with their logical records: %d mismatches" % (checked, len(monviol)))
 
+    # the offending vectors are read back from the shard files (line numbers from TLC)
+    want = collections.defaultdict(dict)
+    for v in monviol:
+        want[v["shard"]][v["line"]] = v
+    for i, lines in want.items():
+        with open(paths[i]) as f:
+            for n, line in enumerate(f, 1):
+                if n in lines:
+                    lines[n]["vector"] = json.loads(line)
     bykey = collections.OrderedDict()
     for v in monviol:
-        c = cases[v["id"]]
+        vec = v["vector"]
+        c = dict(json.loads(raw[v["id"]]), id=v["id"], views={v["mode"]: vec["view"]})
         bykey.setdefault(_key(c, v["mode"], v), []).append((c, v))
     for key, lst in bykey.items():
         c, v = lst[0]
         ctx.violation(key, _describe(c, v["mode"], v) + " [%d case(s) with this key]" % len(lst),
-                      dict(logical=c["logical"], bytes=c["bytes"], prep=c["prep"], mode=v["mode"], view=c["views"].get(v["mode"]),
+                      dict(case=dict(fam=c["fam"], logical=c["logical"], bytes=c["bytes"], prep=c["prep"], typed=c["typed"],
+                                     plan=c["plan"]),
+                           mode=v["mode"], view=c["views"][v["mode"]],
                            contradicted=dict(top=v["top"], inner=v["inner"]), other_cases=[x[0]["id"] for x in lst[1:20]]))
 
     # ---- evidence
-    distinct = set()
-    for v in vectors:
-        c = cases[v["id"]]
-        if len(c["bytes"]) > 9:
-            distinct.add((v["mode"], json.dumps(c["bytes"])))
-    fam = collections.Counter(c["fam"] for c in cases)
-    modes = collections.Counter(v["mode"] for v in vectors)
-    sample = next(c for c in cases if c["fam"] == "ROWS" and c["logical"]["v"] >= 4 and c["logical"]["b"]["rows"] and "sess-skip" in c["modes"])
+    fam = collections.Counter(s["fam"] for s in summ_of)
+    sid = next((i for i, s in enumerate(summ_of) if s["fam"] == "ROWS" and s["v"] >= 4 and "sess-skip" in s["modes"]
+                and s["typed"] and s["nbytes"] > 80), 0)
+    if forced:
+        ctx.notes.append("replay of %d recorded case(s)" % len(raw))
+    sample = json.loads(raw[sid])
+    sview = None
+    with open(vp) as f:
+        for line in f:
+            if '"id":%d,' % sid in line and '"mode":"%s"' % summ_of[sid]["modes"][-1] in line:
+                sview = json.loads(line)
+                break
     ctx.cov = dict(
         evaluations=checked,
         distinct_nontrivial=len(distinct),
         rule="distinct (frame bytes, path) pairs with a non-empty body whose decoded view TLC compared with the logical record",
-        cases=len(cases), cases_bfs=nbfs, cases_simulation=len(deep), simulation_trees_seen=ndeep_all, families=dict(fam), views_by_mode=dict(modes),
-        versions=sorted(set(c["logical"]["v"] for c in cases)),
-        kinds=sorted(set(c["logical"]["kind"] for c in cases)),
-        error_codes=sorted(set("0x%04x" % c["logical"]["b"]["code"] for c in cases if c["logical"]["kind"] == "ERROR")),
+        cases=len(raw), cases_bfs=nbfs, cases_simulation=len(deep), simulation_trees_seen=ndeep_all,
+        generator_states=gdistinct, families=dict(fam), views_by_mode=dict(modes_seen),
+        versions=sorted(set(s["v"] for s in summ_of)),
+        kinds=sorted(set(s["kind"] for s in summ_of)),
+        error_codes=sorted(set("0x%04x" % s["code"] for s in summ_of if s["code"] is not None)),
         mismatches=len(monviol),
-        samples=[dict(case=sample["id"], fam=sample["fam"], modes=sample["modes"], logical=sample["logical"], bytes=sample["bytes"],
-                      view_sess_skip=sample["views"].get("sess-skip"))],
+        samples=[dict(case=sid, fam=sample["fam"], modes=summ_of[sid]["modes"], logical=sample["logical"], bytes=sample["bytes"],
+                      prepared_frame=sample["prep"], driver_view=sview)],
     )
     ctx.assumptions += [
         "reference encoder written from the native protocol specifications v1-v5; v5 'as implemented' by the driver: legacy "
